@@ -147,13 +147,13 @@ def cases(draw, tier):
     ops = []
     n0 = draw(st.integers(1, 3))
     for _ in range(n0):
-        spec = draw(G.nfa_specs(max_states=3, min_sigma=0, max_sigma=2, eps_choices=[eps], pool=G.POOL[:14]))
+        spec = draw(G.nfa_specs(max_states=3, min_sigma=0, max_sigma=2, eps_choices=[eps], pool=G.POOL if draw(st.booleans()) else G.POOL[:14]))
         ops.append({"op": "fresh", "nfa": spec})
     m = draw(st.integers(1, maxops))
     for _ in range(m):
         kind = draw(st.sampled_from(["union", "concat", "star", "union", "concat", "star", "fresh", "copy"]))
         if kind == "fresh":
-            ops.append({"op": "fresh", "nfa": draw(G.nfa_specs(max_states=3, max_sigma=2, eps_choices=[eps], pool=G.POOL[:14]))})
+            ops.append({"op": "fresh", "nfa": draw(G.nfa_specs(max_states=3, max_sigma=2, eps_choices=[eps], pool=G.POOL if draw(st.booleans()) else G.POOL[:14]))})
         else:
             ops.append({"op": kind, "x": draw(st.integers(0, 7)), "y": draw(st.integers(0, 7)),
                         "gen": draw(st.sampled_from(["default", "explicit"])), "rep": draw(st.sampled_from(G.REPS))})
